@@ -519,7 +519,8 @@ def save_score_midi(
             for t, me in m_events.items():
                 events[tr][t] = me + events[tr][t]
 
-    n_tracks = max(tr for tr, _ in tr_ch_map.values()) + 1
+    # (a score without any note still gets one track, for the tempo events)
+    n_tracks = max((tr for tr, _ in tr_ch_map.values()), default=0) + 1
     tracks = [MidiTrack() for _ in range(n_tracks)]
 
     # tempo events are handled differently from key/time sigs because the have a
